@@ -14,6 +14,8 @@ RULE = ("cases: membrane (1..4 experiments per component, stated/regressed Ea) x
         "with/without temperature programme. Oracle: standalone flux calculation (keyword call) vs permeate-composition helper, "
         "separation-factor helper, one-point ideal diffusion curve (fluxes, permeate composition, separation factor, PSI), step 0 of the "
         "process models, and EVERY step of every process vs a standalone calculation at that step's reported state. "
+        "Also: the parameters of the model that was NOT selected are moved - every entry point must answer bit-identically; the standalone "
+        "calculation uses the permeate condition the step reports. "
         "non-trivial = NRTL and UNIQUAC fluxes differ by > 1e-6 relative at the case (a silent fall-back to the default model is visible) "
         "and the reference call returned; distinct = SHA-1 of the case JSON")
 ASSUMPTIONS = ["same code path with the same arguments: relative tolerance 1e-12",
